@@ -22,6 +22,7 @@ func main() {
 	transformDerived3(r)
 	primitives2(r)
 	colliderDerived2(r)
+	transformedColliderDerived(r)
 	transformDerived2(r)
 	meshes3(r)
 	trianglePrims3(r)
